@@ -140,6 +140,42 @@ def cu2qu_error_milli(src, f2):
     return int(worst * 1000), measured
 
 
+def unrounded_cu2qu_error_milli(case):
+    """Largest distance (1/1000 unit) between the cubic source contours of the simple glyphs and what TTFPreProcessor makes
+    of them BEFORE any rounding to the grid -- the quantity the configured conversion error bounds."""
+    from fontTools.pens.recordingPen import RecordingPen
+
+    from ufo2ft.preProcessor import TTFPreProcessor
+
+    font = absfont.build_font(case["ufo"], case.get("lib", "ufoLib2"))
+    kw = dict(case.get("kwargs") or {})
+    pre = TTFPreProcessor(font, convertCubics=True, reverseDirection=False, conversionError=kw.get("cubicConversionError"))
+    gs = pre.process()
+    src = case["ufo"]["glyphs"]
+    worst, measured = 0.0, 0
+    for name, g in src.items():
+        if g["comps"] or not g["cs"] or name not in gs:
+            continue
+        if not any(p[2] == "curve" for c in g["cs"] for p in c):
+            continue
+        rec = RecordingPen()
+        gs[name].draw(rec)
+        contours, cur = [], []
+        for op, args in rec.value:
+            cur.append((op, args))
+            if op in ("closePath", "endPath"):
+                contours.append(cur)
+                cur = []
+        if len(contours) != len(g["cs"]):
+            return 10 ** 6, 1
+        for c_src, c_out in zip(g["cs"], contours):
+            a = _sample_contour_source(c_src, 80)
+            b = _sample_recording(c_out, 80)
+            worst = max(worst, _hausdorff(a, b))
+            measured += 1
+    return int(worst * 1000), measured
+
+
 def static_compile(case, glyphsets=True):
     """case: {cid, lib, flavor: cff|tt, ufo: abstract ufo, kwargs: {...}, expectErr: ""}
     returns one PipelineTrace record."""
@@ -202,6 +238,12 @@ def static_compile(case, glyphsets=True):
                 em, nm = cu2qu_error_milli(src, f2)
                 if nm:
                     ret["errMilli"] = em
+                if case.get("measureUnrounded"):
+                    pm, pn = unrounded_cu2qu_error_milli(case)
+                    if pn:
+                        ret["preErrMilli"] = pm
+                        upm_ = case["ufo"].get("info", {}).get("unitsPerEm", 1000)
+                        rec["opts"]["preTolMilli"] = int(1100 * (kwargs.get("cubicConversionError") or 0.001) * upm_) + 150      # (+10 % and 0.15 unit: chord error of the sampled polylines)
             mp = f2["maxp"]
             ret["maxp"] = {"maxComponentElements": mp.maxComponentElements, "maxComponentDepth": mp.maxComponentDepth,
                            "numGlyphs": mp.numGlyphs}
